@@ -651,3 +651,23 @@ func sharedElementFindings(fn *ssa.Function) []sharedElem {
 	}
 	return out
 }
+
+// earlyExit: a block of loop l (other than its head) from which the loop is left — by a return, or by an edge to a
+// block outside l that is not simply the enclosing loop continuing.  nil when the loop is left only from its head.
+func earlyExit(fi *FnInfo, l *Loop) *ssa.BasicBlock {
+	for _, b := range fi.Fn.Blocks {
+		if !l.Blocks[b] || b == l.Head {
+			continue
+		}
+		if _, isRet := lastInstr(b).(*ssa.Return); isRet {
+			return b
+		}
+		for _, succ := range b.Succs {
+			if l.Blocks[succ] {
+				continue
+			}
+			return b
+		}
+	}
+	return nil
+}
